@@ -58,6 +58,9 @@ func c17Check(c *Case) []Violation {
 	var vs []Violation
 	vs = append(vs, alteredReport(c, "C17", "fatigue", t, bs)...)
 	prev, next := t.prev, t.next
+	if _, has := t.props["effectiveFatigueRatio"]; !has {
+		vs = append(vs, viol(c, "C17/ratio-not-reported", "the report carries no effectiveFatigueRatio (keys %v)", mapKeys(t.props)))
+	}
 	f := asF(t.props["effectiveFatigueRatio"])
 	if !near(f, fatigueRatioRef(props)) {
 		vs = append(vs, viol(c, "C17/ratio", "effectiveFatigueRatio %v, expected %v", f, fatigueRatioRef(props)))
@@ -183,7 +186,7 @@ func c17Run(s *Shard) {
 	sampled := false
 	for _, method := range allMethods {
 		for _, subset := range []bool{false, true} {
-			for _, variant := range []int{0, 1, 2, 3, 4} { // 0 observed range, 1 declared range, 2 negative values, 3 one criterion with a single value, 4 never-considered alternatives beyond both ends
+			for _, variant := range []int{0, 1, 2, 3, 4, 5} { // 0 observed range, 1 declared range, 2 negative values, 3 one criterion with a single value, 4 never-considered alternatives beyond both ends, 5 values with many decimals / at the 1e-9 scale
 				root := rootRequest(method, subset, variant == 1)
 				if variant == 2 {
 					root = negativeVariant(root) // c1 strictly negative for every known alternative
@@ -199,6 +202,13 @@ func c17Run(s *Shard) {
 				}
 				if variant == 4 {
 					root = wideVariant(root)
+				}
+				if variant == 5 {
+					root = tinyVariant(root) // c3 at the 1e-9 scale
+					for _, a := range asL(root["knownAlternatives"]) {
+						cm := asM(asM(a)["criteria"])
+						cm["c1"] = asF(cm["c1"]) / 3 // thirds: more decimals than any rounding keeps
+					}
 				}
 				for pi, pre := range prefixes {
 					if variant >= 2 && pi > 0 {
